@@ -18,7 +18,7 @@ SOURCES = ('basic', 'compound', 'orthogonal')
 
 class St:
     __slots__ = ('name', 'kind', 'parent', 'children', 'initial', 'memory', 'entry_sends', 'exit_sends',
-                 'pre', 'post', 'inv', 'bump_entry', 'bump_exit', 'tobs', 'tinv', 'echo')
+                 'pre', 'post', 'inv', 'bump_entry', 'bump_exit', 'tobs', 'tinv', 'echo', 'tpost')
 
     def __init__(self, name, kind, parent):
         self.name = name
@@ -36,12 +36,13 @@ class St:
         self.bump_exit = False
         self.tobs = False       # code logs the `time` variable it sees
         self.tinv = []          # time-aware invariants: (cond id, after arg or None, idle arg or None)
+        self.tpost = []         # time-aware postconditions: (cond id, after arg), set by C13 only
         self.echo = None        # ('entry'|'exit', i): that code is exactly the text of the event-free guard of transition i
 
     def as_tuple(self):
         return (self.name, self.kind, self.parent, tuple(self.children), self.initial, self.memory,
                 tuple(self.entry_sends), tuple(self.exit_sends), tuple(self.pre), tuple(self.post),
-                tuple(self.inv), self.bump_entry, self.bump_exit, self.tobs, tuple(self.tinv), self.echo)
+                tuple(self.inv), self.bump_entry, self.bump_exit, self.tobs, tuple(self.tinv), self.echo) + ((tuple(self.tpost),) if self.tpost else ())
 
 
 class Tr:
@@ -508,6 +509,10 @@ def guard_code(t):
     return 'P.guard(%d, event)' % t.i
 
 
+def tpost_code(j, a):
+    return 'P.tpost(%d, after(%r), time)' % (j, a)
+
+
 def tinv_code(j, a, i):
     return 'P.tcond(%d, %s, %s, time)' % (j, 'after(%r)' % a if a is not None else 'None',
                                           'idle(%r)' % i if i is not None else 'None')
@@ -552,6 +557,7 @@ def _state_obj(model, s, with_old=True):
     o.postconditions.extend(cond_code(j, 'post', False, with_old) for j in s.post)
     o.invariants.extend(cond_code(j, 'inv', False, with_old) for j in s.inv)
     o.invariants.extend(tinv_code(j, a, i) for j, a, i in s.tinv)
+    o.postconditions.extend(tpost_code(j, a) for j, a in s.tpost)
     return o
 
 
@@ -599,6 +605,7 @@ def to_dict(sp, order=None, name='gen'):
         out += [{'always': cond_code(j, 'inv', is_t, True)} for j in o.inv]
         if not is_t:
             out += [{'always': tinv_code(j, a, i)} for j, a, i in o.tinv]
+            out += [{'after': tpost_code(j, a)} for j, a in o.tpost]
         return out
 
     def st(n):
